@@ -145,6 +145,31 @@ def c_tree(t):
     return "(Dir %s)" % clist(items)
 
 
+def spec_wipe_allowed(t, keep, sr, cr):
+    """independent reading of the wipe guard: exact shares of bytes / files to delete among the regular
+    files the cleaner looks at (not below a symbolic link or a kept directory)"""
+    entries = dict(all_paths(t))
+    keepset = set(keep)
+    tot_b = tot_n = del_b = del_n = 0
+    for p, v in entries.items():
+        if not isinstance(v, int):
+            continue
+        if any(isinstance(entries.get(p[:k]), tuple) for k in range(1, len(p))):
+            continue
+        if any(p[:k] in keepset for k in range(0, len(p))):
+            continue
+        tot_b += v
+        tot_n += 1
+        if p not in keepset:
+            del_b += v
+            del_n += 1
+    if sr and tot_b and Fraction(del_b, tot_b) >= Fraction(str(sr)):
+        return False
+    if cr and tot_n and Fraction(del_n, tot_n) >= Fraction(str(cr)):
+        return False
+    return True
+
+
 def frac(r):
     if not r:
         return (0, 1)
@@ -188,6 +213,13 @@ def run_case(rep, case, sb: Path):
     rows = {"scan": (case, model_in, obs)}
     if allowed is None:
         return rows, found
+    want_allowed = spec_wipe_allowed(t, keep, sr, cr)
+    if bool(allowed) != want_allowed:
+        found = True
+        rep.violation(f"wipe guard verdict {allowed} but the shares to delete say {want_allowed} "
+                      f"(size ratio {sr}, count ratio {cr}, {len(files_q)} of {cl.total_files_count} files, "
+                      f"{cl.bytes_cleaned} of {cl.bytes_total} bytes)",
+                      {"kind": "oracle", "tie": "scan", "case": case}, tags={"oracle": "wipe_verdict"})
     # (1) auto-clean
     err = None
     try:
